@@ -306,17 +306,20 @@ func (sc *SecretManagerClient) GenerateSecret(resourceName string) (secret *secu
 	// Store the new secret in the secretCache and trigger the periodic rotation for workload certificate
 	sc.registerSecret(*ns)
 
+	// If this signing resulted in discovery of a new root, trigger a ROOTCA request to refresh trust anchor. This
+	// applies whichever resource caused the signing: other subscribers still hold the previous root.
+	oldRoot := sc.cache.GetRoot()
+	rootChanged := !bytes.Equal(oldRoot, ns.RootCert)
+	if rootChanged {
+		cacheLog.Info("Root cert has changed, start rotating root cert")
+		// We store the oldRoot only for comparison and not for serving
+		sc.cache.SetRoot(ns.RootCert)
+	}
 	if resourceName == security.RootCertReqResourceName {
 		ns.RootCert = sc.mergeTrustAnchorBytes(ns.RootCert)
-	} else {
-		// If periodic cert refresh resulted in discovery of a new root, trigger a ROOTCA request to refresh trust anchor
-		oldRoot := sc.cache.GetRoot()
-		if !bytes.Equal(oldRoot, ns.RootCert) {
-			cacheLog.Info("Root cert has changed, start rotating root cert")
-			// We store the oldRoot only for comparison and not for serving
-			sc.cache.SetRoot(ns.RootCert)
-			sc.OnSecretUpdate(security.RootCertReqResourceName)
-		}
+	}
+	if rootChanged {
+		sc.OnSecretUpdate(security.RootCertReqResourceName)
 	}
 
 	return ns, nil
